@@ -196,7 +196,9 @@ def classify(v):
         return "none"
     if isinstance(v, (bool, onp.bool_)):
         return "true" if v else "false"
-    if isinstance(v, (int, onp.integer)):
+    if isinstance(v, onp.integer):
+        return "npint:" + ("zero" if v == 0 else ("pos" if v > 0 else "neg"))
+    if isinstance(v, int):
         return "zero" if v == 0 else ("pos" if v > 0 else "neg")
     if isinstance(v, float):
         if v == onp.inf:
